@@ -318,8 +318,13 @@ def judge(ctx, ps: ProgSet, sched, res, extra_serial):
     if alt is not None:
         red = {"o": [[o for o in oc if o[0] != "err"] for oc in res["outcomes"]], "f": f}
         if json.dumps(red, sort_keys=True) in alt:
-            ctx.hist("refused_under_race", "+".join(sorted({f"{op[0]}={o[1]}" for p, oc in zip(ps.progs, res["outcomes"]) for op, o in zip(p, oc) if o[0] == "err"})))
-            return None
+            # still not what the property says (no serial order refuses that call), but nothing was left behind: its own,
+            # milder class of signature, so that the benign refusals that exist on the unchanged tree can be listed one by
+            # one as known findings while any NEW kind of refusal (e.g. an integrity error out of a registration) is reported
+            errs = sorted({f"{op[0]}={o[1]}" for p, oc in zip(ps.progs, res["outcomes"]) for op, o in zip(p, oc) if o[0] == "err"})
+            ctx.hist("refused_under_race", "+".join(errs))
+            return f"refused-under-race:{','.join(errs)}", dict(rep, serial_results=len(ps.serial)), \
+                "a call was refused with an error that no serial order of the same API calls produces (the refused call left nothing behind)"
     errs = sorted({f"{op[0]}={o[1]}" for p, oc in zip(ps.progs, res["outcomes"]) for op, o in zip(p, oc) if o[0] == "err"})
     return f"not-serializable:{kinds}:{','.join(errs)}", dict(rep, serial_results=len(ps.serial)), \
         "outcomes + final state equal those of NO serial order of the same API calls"
@@ -375,7 +380,7 @@ def explore(ctx: Ctx, deep: bool, search: bool = False):
         ps.fixed_scheds = c.get("schedules", [])
         sets.append(ps)
     fams = ["register", "regdt", "put", "assoc", "chain", "removal", "mix"]
-    nsets = (49 if deep else 21)
+    nsets = (28 if search else (49 if deep else 21))
     for i in range(nsets):
         fam = fams[i % len(fams)]
         setup, progs = gen_family(r, fam)
@@ -413,7 +418,7 @@ def explore(ctx: Ctx, deep: bool, search: bool = False):
                 first[si] = x
     # ---- round 2: more schedules, derived from the executed step sequence of the default schedule
     jobs, meta = [], []
-    cap = 40 if deep else 9
+    cap = 20 if search else (40 if deep else 9)
     for si, ps in enumerate(sets):
         x = first.get(si)
         if not x or x.get("hang"):
